@@ -7,167 +7,76 @@ namespace ShootVerif.Enum
 
 /-! ## collection -/
 
-/-- grammar clauses of one spec: it does not get type T through a typed expression; a type that is
-    not a plain identifier is present and is not T -/
-def specGrammar (T : Name) (s : VSpec) : Prop :=
-  ¬ (s.ty = none ∧ s.hasVals = true ∧ s.exprTy = some T) ∧
-  (s.tyIdent = true ∨ (s.ty.isSome = true ∧ s.ty ≠ some T))
-
-/-- the next spec, if any, is not an empty one -/
-def headNotEmpty : List VSpec → Prop
-  | [] => True
-  | s :: _ => s.ty.isSome = true ∨ s.hasVals = true
-
-theorem noCarry_tail {s : VSpec} {rest : List VSpec} (h : noCarryAfterNonIdent (s :: rest) = true) :
-    noCarryAfterNonIdent rest = true := by
-  cases rest with
-  | nil => rfl
-  | cons s' r =>
-    simp only [noCarryAfterNonIdent, Bool.and_eq_true] at h
-    exact h.2
-
-theorem noCarry_head {s : VSpec} {rest : List VSpec} (h : noCarryAfterNonIdent (s :: rest) = true)
-    (hni : s.tyIdent = false) (hty : s.ty.isSome = true) : headNotEmpty rest := by
-  cases rest with
-  | nil => trivial
-  | cons s' r =>
-    simp only [noCarryAfterNonIdent, Bool.and_eq_true, Bool.or_eq_true] at h
-    unfold headNotEmpty
-    rcases h.1 with ((h1 | h2) | h3) | h4
-    · rw [hni] at h1; exact absurd h1 (by simp)
-    · cases hs : s.ty with
-      | none => rw [hs] at hty; exact absurd hty (by simp)
-      | some _ => rw [hs] at h2; exact absurd h2 (by simp)
-    · exact Or.inl h3
-    · exact Or.inr h4
+/-- grammar clause of one spec: it does not get type T through a typed expression -/
+def specGrammar (T : Name) (s : VSpec) : Prop := ¬ (s.ty = none ∧ s.hasVals = true ∧ s.exprTy = some T)
 
 /-- relation between the type makeStr remembers (`typ`) and the type the Go rule carries (`prev`):
-    equal; or both not T; or (right after a spec with a non-identifier type, which is not T) anything,
-    as long as the next spec is not an empty one -/
-theorem collectBlock_eq_declaredBlock (T : Name) (specs : List VSpec)
-    (h : ∀ s ∈ specs, specGrammar T s) (hn : noCarryAfterNonIdent specs = true) :
-    ∀ typ prev : Option Name,
-      (typ = prev ∨ (typ = none ∧ prev ≠ some T) ∨ (prev ≠ some T ∧ headNotEmpty specs)) →
+    equal, or makeStr remembers nothing while the Go rule carries a type that is not T (after an
+    untyped constant, and after a spec with a qualified type `pkg.T`) -/
+theorem collectBlock_eq_declaredBlock (T : Name) (hT : qualified T = false) (specs : List VSpec)
+    (h : ∀ s ∈ specs, specGrammar T s) :
+    ∀ typ prev : Option Name, (typ = prev ∨ (typ = none ∧ prev ≠ some T)) →
       collectBlock T typ specs = declaredBlock T prev specs := by
   induction specs with
   | nil => intro _ _ _; rfl
   | cons s rest ih =>
     intro typ prev hrel
     have hs : specGrammar T s := h s (by simp)
-    have ih' := ih (fun s' hs' => h s' (by simp [hs'])) (noCarry_tail hn)
+    have ih' := ih (fun s' hs' => h s' (by simp [hs']))
     unfold collectBlock declaredBlock
     cases hty : s.ty with
     | some t =>
-      cases hid : s.tyIdent with
+      cases hq : qualified t with
       | true =>
-        simp only [Option.isNone_some, Bool.false_and, Bool.false_eq_true, ↓reduceIte, effTy, hty,
-          Option.isSome_some, Bool.not_true, Bool.and_false]
+        -- `X pkg.T = 1`: reset and skipped; by the Go rule its type is t, which is not T
+        have htT : (some t : Option Name) ≠ some T := by
+          intro he; injection he with he; rw [he, hT] at hq; exact absurd hq (by simp)
+        simp only [Option.isNone_some, Bool.false_and, Bool.false_eq_true, ↓reduceIte, effTy, hty, hq, htT,
+          List.nil_append]
+        exact ih' none (some t) (Or.inr ⟨rfl, htT⟩)
+      | false =>
+        simp only [Option.isNone_some, Bool.false_and, Bool.false_eq_true, ↓reduceIte, effTy, hty, hq]
         have := ih' (some t) (some t) (Or.inl rfl)
         by_cases htt : some t = some T
         · simp [htt] at this ⊢; exact this
         · simp [htt] at this ⊢; exact this
-      | false =>
-        -- not an identifier: skipped with the remembered type untouched; by the Go rule its type is t ≠ T
-        have htT : (some t : Option Name) ≠ some T := by
-          rcases hs.2 with h1 | h2
-          · rw [hid] at h1; exact absurd h1 (by simp)
-          · rw [hty] at h2; exact h2.2
-        simp only [Option.isNone_some, Bool.false_and, Bool.false_eq_true, ↓reduceIte, effTy, hty,
-          Option.isSome_some, Bool.not_false, Bool.and_self, htT, List.nil_append]
-        exact ih' typ (some t) (Or.inr (Or.inr ⟨htT, noCarry_head hn hid (by rw [hty]; rfl)⟩))
     | none =>
       cases hv : s.hasVals with
       | true =>
-        have hne : s.exprTy ≠ some T := fun he => hs.1 ⟨hty, hv, he⟩
+        have hne : s.exprTy ≠ some T := fun he => hs ⟨hty, hv, he⟩
         simp only [Option.isNone_none, Bool.and_self, ↓reduceIte, effTy, hty, hv, hne, List.nil_append]
-        exact ih' none s.exprTy (Or.inr (Or.inl ⟨rfl, hne⟩))
+        exact ih' none s.exprTy (Or.inr ⟨rfl, hne⟩)
       | false =>
-        simp only [Option.isNone_none, Bool.and_false, Bool.false_eq_true, ↓reduceIte, effTy, hty, hv,
-          Option.isSome_none, Bool.false_and]
-        rcases hrel with heq | ⟨hn', hp⟩ | ⟨_, hhead⟩
+        simp only [Option.isNone_none, Bool.and_false, Bool.false_eq_true, ↓reduceIte, effTy, hty, hv]
+        rcases hrel with heq | ⟨hn, hp⟩
         · subst heq
           have := ih' typ typ (Or.inl rfl)
           by_cases htt : typ = some T
           · simp [htt] at this ⊢; exact this
           · simp [htt] at this ⊢; exact this
-        · subst hn'
-          have := ih' none prev (Or.inr (Or.inl ⟨rfl, hp⟩))
+        · subst hn
+          have := ih' none prev (Or.inr ⟨rfl, hp⟩)
           simp [hp] at this ⊢; exact this
-        · -- an empty spec cannot follow a spec with a non-identifier type
-          have hhead' : s.ty.isSome = true ∨ s.hasVals = true := hhead
-          rw [hty, hv] at hhead'
-          rcases hhead' with h1 | h1 <;> exact absurd h1 (by simp)
 
-theorem collect_eq_declared (T : Name) (blocks : List (List VSpec))
-    (h : ∀ b ∈ blocks, (∀ s ∈ b, specGrammar T s) ∧ noCarryAfterNonIdent b = true) :
-    collect T blocks = declared T blocks := by
+theorem collect_eq_declared (T : Name) (hT : qualified T = false) (blocks : List (List VSpec))
+    (h : ∀ b ∈ blocks, ∀ s ∈ b, specGrammar T s) : collect T blocks = declared T blocks := by
   unfold collect declared
   induction blocks with
   | nil => rfl
   | cons b rest ih =>
     simp only [List.flatMap_cons]
-    rw [collectBlock_eq_declaredBlock T b (h b (by simp)).1 (h b (by simp)).2 none none (Or.inl rfl),
+    rw [collectBlock_eq_declaredBlock T hT b (h b (by simp)) none none (Or.inl rfl),
       ih (fun b' hb' => h b' (by simp [hb']))]
 
-/-- a block in which no spec names T as its type yields nothing, whatever is remembered on entry
-    (as long as it is not T) -/
-theorem collectBlock_nil (T : Name) (specs : List VSpec) (h : ∀ s ∈ specs, s.ty ≠ some T) :
-    ∀ typ : Option Name, typ ≠ some T → collectBlock T typ specs = [] := by
-  induction specs with
-  | nil => intro _ _; rfl
-  | cons s rest ih =>
-    intro typ htyp
-    have hs := h s (by simp)
-    have ih' := ih (fun s' hs' => h s' (by simp [hs']))
-    unfold collectBlock
-    by_cases h1 : (s.ty.isNone && s.hasVals) = true
-    · rw [if_pos h1]; exact ih' none (by simp)
-    · rw [if_neg h1]
-      by_cases h2 : (s.ty.isSome && !s.tyIdent) = true
-      · rw [if_pos h2]; exact ih' typ htyp
-      · rw [if_neg h2]
-        cases hty : s.ty with
-        | some t =>
-          have : (some t : Option Name) ≠ some T := by rw [← hty]; exact hs
-          simp only [this, ne_eq, not_false_eq_true, ↓reduceIte]
-          exact ih' (some t) this
-        | none =>
-          simp only [htyp, ne_eq, not_false_eq_true, ↓reduceIte]
-          exact ih' typ htyp
-
-theorem collect_nil (T : Name) (blocks : List (List VSpec)) (h : ∀ b ∈ blocks, ∀ s ∈ b, s.ty ≠ some T) :
-    collect T blocks = [] := by
-  unfold collect
-  induction blocks with
-  | nil => rfl
-  | cons b rest ih =>
-    simp only [List.flatMap_cons]
-    rw [collectBlock_nil T b (h b (by simp)) none (by simp), ih (fun b' hb' => h b' (by simp [hb']))]
-    rfl
-
 theorem specGrammar_of_specOK {T : Name} {s : VSpec} (h : specOK T s = true) : specGrammar T s := by
-  simp only [specOK, Bool.and_eq_true, Bool.not_eq_true', Bool.or_eq_true, bne_iff_ne, ne_eq] at h
-  refine ⟨?_, ?_⟩
-  · rintro ⟨h1, h2, h3⟩
-    have := h.1.2
-    simp [h1, h2, h3] at this
-  · rcases h.2 with h1 | ⟨h2, h3⟩
-    · exact Or.inl h1
-    · exact Or.inr ⟨h2, h3⟩
+  intro ⟨h1, h2, h3⟩
+  simp [specOK, h1, h2, h3] at h
 
-/-- under the syntactic grammar the loop of makeStr (over the package-level AND the function-local
-    const blocks) finds exactly the declared constants -/
-theorem collect_of_grammarOK {i : Input} (h : grammarOK i = true) : collect i.T i.allBlocks = i.decl := by
-  simp only [grammarOK, Bool.and_eq_true, List.all_eq_true, bne_iff_ne, ne_eq] at h
-  obtain ⟨⟨_, hb⟩, hl⟩ := h
-  have h1 : collect i.T i.blocks = declared i.T i.blocks :=
-    collect_eq_declared i.T i.blocks (fun b hbm => ⟨fun s hs => specGrammar_of_specOK ((hb b hbm).1 s hs), (hb b hbm).2⟩)
-  have h2 : collect i.T i.locals = [] :=
-    collect_nil i.T i.locals (fun b hbm s hs => ((hl b hbm).1 s hs).2)
-  unfold Input.allBlocks Input.decl
-  have : collect i.T (i.blocks ++ i.locals) = collect i.T i.blocks ++ collect i.T i.locals := by
-    unfold collect; rw [List.flatMap_append]
-  rw [this, h1, h2, List.append_nil]
+/-- under the syntactic grammar the loop of makeStr finds exactly the declared constants -/
+theorem collect_of_grammarOK {i : Input} (h : grammarOK i = true) : collect i.T i.blocks = i.decl := by
+  simp only [grammarOK, Bool.and_eq_true, List.all_eq_true, Bool.not_eq_true'] at h
+  obtain ⟨⟨⟨⟨_, hq⟩, _⟩, _⟩, hb⟩ := h
+  exact collect_eq_declared i.T hq i.blocks (fun b hbm s hs => specGrammar_of_specOK (hb b hbm s hs))
 
 theorem bits_of_basicOK {i : Input} (h : basicOK i = true) : 0 < i.kind.bits ∧ i.kind.bits ≤ 64 := by
   simp only [basicOK, Bool.and_eq_true, decide_eq_true_eq] at h
@@ -358,7 +267,7 @@ theorem find?_some_iff_mem {β : Type} [DecidableEq β] (f : Const → β) (l : 
 /-! ## what WF gives -/
 
 structure WFfacts (i : Input) : Prop where
-  collectEq : collect i.T i.allBlocks = i.decl
+  collectEq : collect i.T i.blocks = i.decl
   bits : 0 < i.kind.bits
   bits64 : i.kind.bits ≤ 64
   nonempty : i.decl ≠ []
@@ -378,7 +287,7 @@ theorem WF.facts {i : Input} (h : WF i = true) : WFfacts i := by
   simp [he] at this
 
 /-- the table the emitted file holds, for any input -/
-def tables (i : Input) : List Const := sortC i.kind (collect i.T i.allBlocks)
+def tables (i : Input) : List Const := sortC i.kind (collect i.T i.blocks)
 
 theorem tables_eq {i : Input} (h : WF i = true) : tables i = specSorted i.decl := by
   have f := WF.facts h
